@@ -5,6 +5,9 @@ import DicomModel.Model.Rle
 import DicomModel.Model.Pdu
 import DicomModel.Model.Partial
 import DicomModel.Model.Guard
+import DicomModel.Model.GuardText
+import DicomModel.Model.TagTextStd
+import DicomModel.Model.Header
 import Driver.Loop
 open Dicom
 
@@ -56,6 +59,21 @@ def parseFrags : Nat → Bytes → List Bytes
       let n := min n rest.length
       rest.take n :: parseFrags fuel (rest.drop n)
 
+/-- `ToLocalTimeZone` with the worker's `TZ=UTC`: the missing offset is 0 -/
+def mkLocalUtc (s e : Partial.Precise) : Option Partial.DateTimeRange :=
+  match s, e with
+  | .naive d1 t1, .aware d2 t2 o2 =>
+    if Partial.gtAware d1 t1 0 d2 t2 o2 then none else some ⟨true, some (.aware d1 t1 0), some e⟩
+  | .aware d1 t1 o1, .naive d2 t2 =>
+    if Partial.gtAware d1 t1 o1 d2 t2 0 then none else some ⟨true, some s, some (.aware d2 t2 0)⟩
+  | _, _ => Partial.mkDateTimeRange .failOn s e
+
+def tsSyntax (uid : String) : Option Syntax :=
+  if uid == "1.2.840.10008.1.2" then some .implicitLE
+  else if uid == "1.2.840.10008.1.2.1" then some .explicitLE
+  else if uid == "1.2.840.10008.1.2.2" then some .explicitBE
+  else none
+
 def rleClass : Rle.Outcome Bytes → String
   | .ok _ => "ok" | .err => "err" | .panic => "panic"
 
@@ -63,12 +81,36 @@ def rleClass : Rle.Outcome Bytes → String
 def predict (kind arg : String) (data : Bytes) : List (String × String) :=
   if kind == "text" ∧ arg == "tag" then
     [("read", match TagText.parseTag data with | .ok _ => "ok" | .err _ => "err" | .panic => "panic")]
+  -- the date / time parsers: C12's model and the panic-explicit one of Model/GuardText.lean
   else if kind == "text" ∧ arg == "datep" then
-    [("read", if (Partial.parseDatePartial data).isSome then "ok" else "err")]
+    [("read", if (Partial.parseDatePartial data).isSome then "ok" else "err"),
+     ("read", (Guard.parseDatePartialG data).cls)]
   else if kind == "text" ∧ arg == "timep" then
-    [("read", if (Partial.parseTimePartial data).isSome then "ok" else "err")]
+    [("read", if (Partial.parseTimePartial data).isSome then "ok" else "err"),
+     ("read", (Guard.parseTimePartialG data).cls)]
   else if kind == "text" ∧ arg == "dtp" then
-    [("read", if (Partial.parseDateTimePartial data).isSome then "ok" else "err")]
+    [("read", if (Partial.parseDateTimePartial data).isSome then "ok" else "err"),
+     ("read", (Guard.parseDateTimePartialG data).cls)]
+  else if kind == "text" ∧ arg == "date" then [("read", (Guard.parseDateG data).cls)]
+  else if kind == "text" ∧ arg == "time" then [("read", (Guard.parseTimeG data).cls)]
+  else if kind == "text" ∧ arg == "dater" then
+    [("read", if (Partial.parseDateRange data).isSome then "ok" else "err"),
+     ("read", (Guard.parseDateRangeG data).cls)]
+  else if kind == "text" ∧ arg == "timer" then
+    [("read", if (Partial.parseTimeRange data).isSome then "ok" else "err"),
+     ("read", (Guard.parseTimeRangeG data).cls)]
+  else if kind == "text" ∧ arg == "dtr" then [("read", (Guard.parseDateTimeRangeG mkLocalUtc data).cls)]
+  else if kind == "text" ∧ arg == "sel" then
+    [("read", match TagText.stdParseSelector data with | .ok _ => "ok" | .err _ => "err" | .panic => "panic"),
+     ("read", if (TagText.splitOn 0x2E data).any (fun p => Guard.selectorSlicesG p == .panic) then "panic" else "any")]
+  else if kind == "text" ∧ arg == "ptag" then
+    [("read", match TagText.stdParseTag data with | .tag _ => "ok" | .unknown => "err" | .panic => "panic")]
+  else if kind == "hdr" then
+    match tsSyntax arg with
+    | none => []
+    | some ts =>
+      [("read", if (decodeHeader ts (fun _ => none) data).isSome then "ok" else "err"),
+       ("item", match decodeItemHeader (match ts with | .explicitBE => true | _ => false) data with | .ok _ => "ok" | .error _ => "err")]
   else if kind == "pdu" then
     let strict := arg.startsWith "s"
     match (arg.drop 1).toString.toNat? with
@@ -114,7 +156,7 @@ def handle (line : String) : String :=
         | none => []
         | some data => (predict kind arg data).filterMap fun (st, cls) =>
             match stageOf toks st with
-            | some c => if c == cls then none else some s!"{st}: impl={c} model={cls}"
+            | some c => if c == cls ∨ cls == "any" then none else some s!"{st}: impl={c} model={cls}"
             | none => none
       if diffs ≠ [] then s!"MODEL-DIFF {kind} {arg} {"; ".intercalate diffs}" else
       let sz := if hexd.startsWith "big:" then "xl" else sizeClass (hexd.length / 2)
